@@ -90,7 +90,7 @@ PALETTE = [T("int"), T("int8"), T("int16"), T("int32"), T("int64"), T("uint"), T
 
 JSON_PALETTE = [T("int"), T("int32"), T("int64"), T("float64"), T("bool"), T("string"), T("string"),
                 Slice(T("int")), Slice(T("string")), Map(T("string"), T("int")), Reg("Inner"), Ptr(Reg("Inner")),
-                Slice(Reg("Inner")), IFACE]
+                Slice(Reg("Inner")), IFACE, Slice(T("uint8")), Reg("MyBytes")]
 
 NAMES = [b"add", b"Add", b"ADD", b"hello_World", "Ünïcode".encode(), "方法".encode(), b"a", b"Z", "İx".encode(),
          "ǅ".encode(), b"user_getName", b"simple", b"timeout", b"x" * 60, "名前😀".encode(), b"with space", b"q\"uote",
